@@ -1542,10 +1542,10 @@ pub fn calc_length(len_str: &str, timebase: isize, def_len: isize) -> isize {
     if cur.peek_n(0) == '.' {
         if cur.eq("....") {
             cur.next_n(4);
-            res += (res as f32 / 2.0 + res as f32 / 4.0 + res as f32 / 8.0 + res as f32 / 16.0) as isize;
+            res = res.wrapping_add((res as f32 / 2.0 + res as f32 / 4.0 + res as f32 / 8.0 + res as f32 / 16.0) as isize);
         } else if cur.eq("...") { // triple dotted note (三付点音符)
             cur.next_n(3);
-            res += (res as f32 / 2.0 + res as f32 / 4.0 + res as f32 / 8.0) as isize;
+            res = res.wrapping_add((res as f32 / 2.0 + res as f32 / 4.0 + res as f32 / 8.0) as isize);
         } else if cur.eq("..") { // double dotted note (複付点音符)
             cur.next_n(2);
             res = res.wrapping_add((res as f32 / 2.0 + res as f32 / 4.0) as isize);
@@ -1573,18 +1573,18 @@ pub fn calc_length(len_str: &str, timebase: isize, def_len: isize) -> isize {
                 if i == 0 {
                     def_len
                 } else {
-                    timebase * 4 / i
+                    timebase.wrapping_mul(4) / i
                 }
             };
             if cur.eq("....") {
                 cur.next_n(4);
-                n += (n as f32 / 2.0 + n as f32 / 4.0 + n as f32 / 8.0 + n as f32 / 16.0) as isize;
+                n = n.wrapping_add((n as f32 / 2.0 + n as f32 / 4.0 + n as f32 / 8.0 + n as f32 / 16.0) as isize);
             } else if cur.eq("...") {
                 cur.next_n(3);
-                n += (n as f32 / 2.0 + n as f32 / 4.0 + n as f32 / 8.0) as isize;
+                n = n.wrapping_add((n as f32 / 2.0 + n as f32 / 4.0 + n as f32 / 8.0) as isize);
             } else if cur.eq("..") {
                 cur.next_n(2);
-                n += (n as f32 / 2.0 + n as f32 / 4.0) as isize;
+                n = n.wrapping_add((n as f32 / 2.0 + n as f32 / 4.0) as isize);
             } else if cur.peek_n(0) == '.' {
                 cur.next();
                 n = (n as f32 * 1.5) as isize;
